@@ -67,6 +67,23 @@ AWCases == { [x |-> x, e |-> e, lo |-> lo, hi |-> hi, sl |-> sl, su |-> su, exp 
 ASSUME \A c \in AWCases : (c.sl * c.lo < c.su * c.hi /\ c.exp.zi = 0) =>
           (c.exp.e = 0 /\ c.exp.x >= c.sl * c.lo /\ c.exp.x <= c.su * c.hi)
 
+(* ---------------- rate limiter on the derivative e of a state; each limit can be switched off per device ---------------- *)
+(* (RateLimiter: the derivative is clipped to [rl, ru]; a limit whose condition flag is 0 neither clips nor reports)           *)
+RL(e, rl, ru, cl, cu) ==
+    LET zlr == B(e < rl /\ cl = 1)
+        e1 == IF zlr = 1 THEN rl ELSE e
+        zur == B(e1 > ru /\ cu = 1)
+        e2 == IF zur = 1 THEN ru ELSE e1
+    IN [zlr |-> zlr, zur |-> zur, e |-> e2]
+RLCases == { [e |-> e, rl |-> rl, ru |-> ru, cl |-> cl, cu |-> cu, exp |-> RL(e, rl, ru, cl, cu)] :
+             e \in -3..3, rl \in {-2, -1}, ru \in {1, 2}, cl \in {0, 1}, cu \in {0, 1} }
+(* a disabled limit never changes the derivative *)
+ASSUME \A c \in RLCases : (c.cl = 0 /\ c.cu = 0) => (c.exp.e = c.e /\ c.exp.zlr = 0 /\ c.exp.zur = 0)
+(* anti-windup limiter with rate limits: the rate limits act first, then the anti-windup rule on the clipped derivative *)
+AWR(x, e, lo, hi, rl, ru, cl, cu) == LET r == RL(e, rl, ru, cl, cu) IN [rate |-> r, aw |-> AW(x, r.e, lo, hi, 1, 1)]
+AWRCases == { [x |-> x, e |-> e, lo |-> -1, hi |-> 2, rl |-> -1, ru |-> 1, cl |-> cl, cu |-> cu, exp |-> AWR(x, e, -1, 2, -1, 1, cl, cu)] :
+              x \in {-2, -1, 0, 2, 3}, e \in -3..3, cl \in {0, 1}, cu \in {0, 1} }
+
 (* ---------------- comparators, switch, selector ---------------- *)
 CmpCases == { [u |-> u, bound |-> b, eq |-> eq, lt |-> B(IF eq THEN u <= b ELSE u < b), iseq |-> B(u = b)] :
               u \in Vals, b \in Lims, eq \in BOOLEAN }
